@@ -168,6 +168,9 @@ pub fn case_json(gname: &str, g: &Graph, pres: Presentation, q: &Query, backend:
 impl<'r> StaticSweep<'r> {
     fn handle<T: LabelType>(&mut self, q: &Query, backend: &str, fv: FvPolicy, choices: &[usize], result: &Result<Out, String>) {
         self.acc.evaluations += 1;
+        // very long choice vectors (diverging searches) are abbreviated in messages
+        let shown: Vec<usize> = choices.iter().cloned().take(40).collect();
+        let choices_msg = if choices.len() > 40 { format!("{:?}... ({} calls)", shown, choices.len()) } else { format!("{:?}", shown) };
         match result {
             Ok(out) => {
                 if self.acc.outcomes.len() < 2000 {
@@ -186,7 +189,7 @@ impl<'r> StaticSweep<'r> {
                             property: prop.to_string(),
                             key,
                             message: format!(
-                                "{} {:?} cert={} enc={} on {} [{}] ({}; backend {} choices {:?}): {} -- observed: {}",
+                                "{} {:?} cert={} enc={} on {} [{}] ({}; backend {} choices {}): {} -- observed: {}",
                                 q.problem(),
                                 q.args,
                                 q.cert,
@@ -195,7 +198,7 @@ impl<'r> StaticSweep<'r> {
                                 self.pres.name(),
                                 self.gname,
                                 backend,
-                                choices,
+                                choices_msg,
                                 msg,
                                 out.describe()
                             ),
@@ -222,7 +225,7 @@ impl<'r> StaticSweep<'r> {
                         property: prop.to_string(),
                         key: format!("problem={};enc={};aspect=panic", q.problem(), q.enc.name()),
                         message: format!(
-                            "{} {:?} cert={} enc={} on {} [{}] (backend {} choices {:?}) panicked: {}",
+                            "{} {:?} cert={} enc={} on {} [{}] (backend {} choices {}) panicked: {}",
                             q.problem(),
                             q.args,
                             q.cert,
@@ -230,7 +233,7 @@ impl<'r> StaticSweep<'r> {
                             self.g.describe(),
                             self.pres.name(),
                             backend,
-                            choices,
+                            choices_msg,
                             p
                         ),
                         case: case_json(self.gname, self.g, self.pres, q, backend, fv, choices),
@@ -249,14 +252,26 @@ impl<'r> BuiltVisitor for StaticSweep<'r> {
             self.acc.queries += 1;
             let cfgs = self.cfgs;
             for cfg in cfgs {
+                let cfg = &cfg.clone(); // own stop flag
                 let mut execs: Vec<(Vec<usize>, Result<Out, String>)> = vec![];
+                let ra = self.ra;
+                cfg.stop.set(false);
                 let r = explore(
                     cfg,
                     &mut |factory| run_query(b, q, factory),
                     &mut |e: &Exec<Out>| {
+                        // the first deviating execution of a case ends its exploration
+                        let bad = match e.result {
+                            Ok(o) => !judge(ra, q, o).is_empty(),
+                            Err(_) => true,
+                        };
+                        if bad {
+                            cfg.stop.set(true);
+                        }
                         execs.push((e.choices.clone(), e.result.clone()));
                     },
                 );
+                cfg.stop.set(false);
                 match r {
                     Ok(st) => self.acc.stats.add(&st),
                     Err(m) => self.acc.machinery.push(format!("{} on {}: {}", q.problem(), self.g.describe(), m.0)),
